@@ -4,6 +4,8 @@
 //
 // stderr gets one line "status=<message or ok> left=<unread input bytes>".
 // Exit code 0 iff the decoder returned ok.
+//        wuffsdec batch < records > results   (many small files in one process,
+//        see batch() below)
 //
 // Compile with  -DWUFFS_SNAPSHOT='"<path>/wuffs-unsupported-snapshot.c"'.
 
@@ -52,9 +54,65 @@ static int write_all(const uint8_t* p, size_t n) {
   return 0;
 }
 
+static void put_u32le(uint8_t* p, uint32_t v) {
+  p[0] = (uint8_t)(v >> 0);
+  p[1] = (uint8_t)(v >> 8);
+  p[2] = (uint8_t)(v >> 16);
+  p[3] = (uint8_t)(v >> 24);
+}
+
+// Batch mode: stdin is a sequence of records  'l'|'x', u32le n, n bytes; for
+// each record stdout gets  u8 status (0 = ok, 1 = not ok), u32le unread input
+// bytes, u32le output length, output bytes.  Outputs longer than BATCH_OUT are
+// not supported (status 1): the batch is for the many tiny files.
+#define BATCH_OUT (1 << 20)
+static uint8_t g_bout[BATCH_OUT];
+
+static int batch(const uint8_t* in, size_t len) {
+  size_t pos = 0;
+  FILE* out = stdout;
+  while (pos < len) {
+    if (len - pos < 5) {
+      return 3;
+    }
+    int kind = in[pos];
+    size_t n = (size_t)in[pos + 1] | ((size_t)in[pos + 2] << 8) | ((size_t)in[pos + 3] << 16) | ((size_t)in[pos + 4] << 24);
+    pos += 5;
+    if (len - pos < n) {
+      return 3;
+    }
+    wuffs_base__status st;
+    wuffs_base__io_transformer* t;
+    if (kind == 'l') {
+      st = wuffs_lzma__decoder__initialize(&g_dec.lzma, sizeof g_dec.lzma, WUFFS_VERSION,
+                                           WUFFS_INITIALIZE__DEFAULT_OPTIONS);
+      t = wuffs_lzma__decoder__upcast_as__wuffs_base__io_transformer(&g_dec.lzma);
+    } else {
+      st = wuffs_xz__decoder__initialize(&g_dec.xz, sizeof g_dec.xz, WUFFS_VERSION,
+                                         WUFFS_INITIALIZE__DEFAULT_OPTIONS);
+      t = wuffs_xz__decoder__upcast_as__wuffs_base__io_transformer(&g_dec.xz);
+    }
+    uint8_t hdr[9];
+    wuffs_base__io_buffer src = wuffs_base__ptr_u8__reader((uint8_t*)(in + pos), n, true);
+    wuffs_base__io_buffer dst = wuffs_base__ptr_u8__writer(g_bout, BATCH_OUT);
+    if (wuffs_base__status__is_ok(&st)) {
+      st = wuffs_base__io_transformer__transform_io(t, &dst, &src,
+                                                    wuffs_base__make_slice_u8(g_workbuf, WORKBUF_LEN));
+    }
+    hdr[0] = wuffs_base__status__is_ok(&st) ? 0 : 1;
+    put_u32le(hdr + 1, (uint32_t)(src.meta.wi - src.meta.ri));
+    put_u32le(hdr + 5, (uint32_t)dst.meta.wi);
+    if (fwrite(hdr, 1, 9, out) != 9 || fwrite(g_bout, 1, dst.meta.wi, out) != dst.meta.wi) {
+      return 3;
+    }
+    pos += n;
+  }
+  return fflush(out) ? 3 : 0;
+}
+
 int main(int argc, char** argv) {
   if (argc != 2) {
-    fprintf(stderr, "usage: wuffsdec lzma|xz\n");
+    fprintf(stderr, "usage: wuffsdec lzma|xz|batch\n");
     return 3;
   }
   // Read all of stdin.
@@ -82,6 +140,10 @@ int main(int argc, char** argv) {
       break;
     }
     len += (size_t)k;
+  }
+
+  if (!strcmp(argv[1], "batch")) {
+    return batch(in, len);
   }
 
   wuffs_base__status st;
